@@ -70,6 +70,8 @@ func runC11(c *Ctx) {
 		R.Ob(fn+"/default refuses with 5xx", c.P.Pos(f.Pos()), found, "no 5xx refusal found on the branch where the key matches none of the handled parameters: unknown parameters are accepted silently")
 	}
 
+	ruleQuotedString(c)
+
 	R.Rule("R-param-flow", "E4 value flow + E3", "each option field is stored only in its own parameter's case from the decoded value; the envelope path given to the backend is the parser's result", 14)
 	flows := map[string][]fieldFlow{
 		"(*Conn).handleMail": {
@@ -230,4 +232,129 @@ func runC11(c *Ctx) {
 
 func regexpMatch(re, s string) bool {
 	return regexpCache(re).MatchString(s)
+}
+
+// ruleQuotedString extracts, by class-wise abstract interpretation, what the
+// quoted-string loop of parseLocalPart does per (first byte, escaped byte)
+// class and compares it with RFC 5321 quoted-string: a backslash makes the
+// NEXT byte literal whatever it is; an unescaped '"' ends the string; every
+// other byte is taken literally.
+func ruleQuotedString(c *Ctx) {
+	R := c.R
+	R.Rule("R-quoted-pair-table", "E5 class-wise extraction", "parseLocalPart quoted-string: backslash takes the next byte literally (also '\"' and backslash), an unescaped '\"' ends the string, other bytes are literal", 5)
+	f := c.A.Func("(*parser).parseLocalPart")
+	if f == nil {
+		return
+	}
+	// the loop containing two readByte calls
+	var loop *loopInfo
+	for _, li := range findLoops(f) {
+		n := 0
+		for b := range li.blocks {
+			for _, in := range b.Instrs {
+				if isStaticCall(in, "(*parser).readByte") {
+					n++
+				}
+			}
+		}
+		if n >= 1 && (loop == nil || n > 1) {
+			loop = li
+		}
+	}
+	if loop == nil {
+		R.Und("(*parser).parseLocalPart/quoted-string loop", c.P.Pos(f.Pos()), "no loop reading bytes with readByte found")
+		return
+	}
+	type cls struct {
+		name string
+		v    int64
+	}
+	classes := []cls{{"'\"'", '"'}, {"backslash", '\\'}, {"other", 'a'}}
+	for _, c1 := range classes {
+		for _, c2 := range classes {
+			if c1.v != '\\' && c2.name != "other" {
+				continue // the second byte is only read after a backslash
+			}
+			reads := 0
+			run := &ivRun{env: map[ssa.Value]ivVal{}}
+			callVal := map[*ssa.Call]int64{}
+			run.h = ivHooks{
+				Stop: func(b *ssa.BasicBlock) bool { return b == loop.header },
+				Value: func(v ssa.Value) (ivVal, bool) {
+					if e, ok := v.(*ssa.Extract); ok {
+						if call, ok := e.Tuple.(*ssa.Call); ok {
+							if val, known := callVal[call]; known {
+								if e.Index == 0 {
+									return ivVal{K: ivSym, Lo: val, Hi: val}, true
+								}
+								return ivVal{K: ivBool, B: true}, true
+							}
+						}
+					}
+					return ivVal{}, false
+				},
+				Call: func(call *ssa.Call, arg func(ssa.Value) ivVal) (ivVal, string) {
+					g := staticCallee(&call.Call)
+					if g == nil {
+						return ivVal{}, ""
+					}
+					switch qualFuncName(g) {
+					case "(*parser).readByte":
+						reads++
+						if reads == 1 {
+							callVal[call] = c1.v
+						} else {
+							val := c2.v
+							if c2.name == "other" {
+								val = 'b'
+							}
+							callVal[call] = val
+						}
+						return ivVal{}, ""
+					case "(*strings.Builder).WriteByte":
+						a := arg(call.Call.Args[1])
+						if a.K == ivSym {
+							return ivVal{}, fmt.Sprintf("WRITE:%c", rune(a.Lo))
+						}
+						return ivVal{}, "WRITE:?"
+					}
+					return ivVal{}, ""
+				},
+				Return: func(r *ssa.Return, arg func(ssa.Value) ivVal) string {
+					if len(r.Results) == 2 && isNilConst(r.Results[1]) {
+						return "END"
+					}
+					return "ERROR"
+				},
+			}
+			// start at the loop header as if entered from outside
+			var from *ssa.BasicBlock
+			for _, p := range loop.header.Preds {
+				if !loop.blocks[p] {
+					from = p
+				}
+			}
+			run.Walk(loop.header, from)
+			got := strings.Join(run.Events, ",")
+			var want string
+			switch {
+			case c1.v == '"':
+				want = "END"
+			case c1.v == '\\':
+				ch := c2.v
+				if c2.name == "other" {
+					ch = 'b'
+				}
+				want = fmt.Sprintf("WRITE:%c", rune(ch))
+			default:
+				want = "WRITE:a"
+			}
+			key := fmt.Sprintf("(*parser).parseLocalPart/quoted-string cell(%s,%s)", c1.name, c2.name)
+			if run.Und != "" {
+				R.Und(key, c.P.Pos(f.Pos()), run.Und)
+				continue
+			}
+			R.Ob(key, c.P.Pos(f.Pos()), got == want, fmt.Sprintf("first byte %s, next byte %s: parser does [%s], RFC 5321 quoted-string requires [%s]", c1.name, c2.name, got, want))
+		}
+	}
 }
